@@ -205,6 +205,8 @@ def programs(tier, seed):
                 chosen.append(p)
             else:
                 rest.append(p)
+        if theme == "real":      # every index-by-tensor / index-by-variable shape (the getitem rules' argument layouts)
+            chosen += [p for p in rest if p[0] in ("getitem", "getitem_at")]
         out += [(theme, p) for p in chosen + rest[:40 if tier == "quick" else 400]]
         d2 = list(gen.depth2(theme, rng, per_inner=1 if tier == "quick" else 2))
         rng.shuffle(d2)
